@@ -4,7 +4,7 @@ CONSTANTS
   BadQueries = {"qbad"}
   MutQueries = {"qm"}
   Res <- ResFromFile
-  MaxVer = 7
+  MaxVer = 9
   MaxInst = 24
   MaxSubs <- MaxSubsEnv
   AllowCtxCancel = TRUE
